@@ -344,7 +344,10 @@ def semi_singleton_metaclass(hashfunc: Callable | None = None) -> type:
         _SemiSingleton__semisingleton_hashfunc = hashfunc
 
         def __call__(cls, *args, **kwargs):
-            key = hashfunc(args, kwargs)
+            # the map lives on the metaclass, which subclasses -- and any other
+            # class given this same metaclass object -- share; key it by the
+            # class as well, so that each class has its own instances
+            key = (cls, hashfunc(args, kwargs))
             if key not in cls._SemiSingleton__semisingleton_instance_map:
                 cls._SemiSingleton__semisingleton_instance_map[key] = super(
                     _SemiSingleton, cls
@@ -399,7 +402,7 @@ def add_mapping(obj: object, *args, **kwargs):
     # mappings
     # see the note at the top of the file regarding the type-checker silencing
     hashfunc = cls._SemiSingleton__semisingleton_hashfunc  # type: ignore
-    hashid = hashfunc(args, kwargs)
+    hashid = (type(obj), hashfunc(args, kwargs))
 
     # store the hashed identifier in the metaclass map of hashes to instances
     cls._SemiSingleton__semisingleton_instance_map[hashid] = obj  # type: ignore
@@ -451,7 +454,7 @@ def drop_semi_singleton_mapping(cls: type, *args, **kwargs):
     # use the metaclass's hash function to identify the primary key
     # see the note at the top of the file regarding the type-checker silencing
     hashfunc = mcls._SemiSingleton__semisingleton_hashfunc  # type: ignore
-    hashid = hashfunc(args, kwargs)
+    hashid = (cls, hashfunc(args, kwargs))
 
     del mcls._SemiSingleton__semisingleton_instance_map[hashid]
 
@@ -496,7 +499,7 @@ def check_semi_singleton_entry_exists(cls: type, *args, **kwargs) -> object:
     # use the metaclass's hash function to identify the primary key
     # see the note at the top of the file regarding the type-checker silencing
     hashfunc = mcls._SemiSingleton__semisingleton_hashfunc  # type: ignore
-    hashid = hashfunc(args, kwargs)
+    hashid = (cls, hashfunc(args, kwargs))
 
     if hashid in mcls._SemiSingleton__semisingleton_instance_map:  # type: ignore
         return mcls._SemiSingleton__semisingleton_instance_map[hashid]  # type: ignore
@@ -534,7 +537,10 @@ def get_all_semi_singleton_instances(cls: type) -> Generator[object]:
     :param cls: Data type to check singleton instances for.
     :return: Generator expression yielding semi-singleton instances.
     """
-    yield from type(cls)._SemiSingleton__semisingleton_instance_map.values()  # type: ignore
+    # the map is shared by every class using this metaclass object; entries
+    # are keyed by (class, argument key)
+    instmap = type(cls)._SemiSingleton__semisingleton_instance_map  # type: ignore
+    yield from (inst for (owner, _), inst in instmap.items() if owner is cls)
 
 
 def clear_semi_singleton(cls: type) -> None:
@@ -569,4 +575,11 @@ def clear_semi_singleton(cls: type) -> None:
 
     :param cls: Class to clear semisingleton states from.
     """
-    type(cls)._SemiSingleton__semisingleton_instance_map = {}  # type: ignore
+    # drop this class's entries only; subclasses and other classes sharing the
+    # metaclass object keep theirs
+    mcls = type(cls)
+    mcls._SemiSingleton__semisingleton_instance_map = {  # type: ignore
+        key: inst
+        for key, inst in mcls._SemiSingleton__semisingleton_instance_map.items()  # type: ignore
+        if key[0] is not cls
+    }
